@@ -857,7 +857,7 @@ def second_phase(chk):
 def _prerun(args):
     work, inp = args
     b = core.build("asan")
-    d = os.path.join(work, "pre", _inp_hash(inp))
+    d = os.path.join(work, "pre", "%s-%d" % (_inp_hash(inp), os.getpid()))
     os.makedirs(d, exist_ok=True)
     o = exec_input(b, inp, d)
     shutil.rmtree(d, ignore_errors=True)
@@ -877,6 +877,7 @@ def prepare(chk):
         c = f.get("case") or {}
         if c.get("finding_witness"):
             inputs.extend(c.get("inputs", []))
+    inputs = list({_inp_hash(i): i for i in inputs}.values())     # variant keys share one witness
     if inputs:
         from concurrent.futures import ProcessPoolExecutor
         with ProcessPoolExecutor(max_workers=core.NPROC) as ex:
